@@ -39,16 +39,16 @@ Let Rth : rng K := of_rng K OFK.
 Add Ring RrMaxvolP : Rth.
 
 (* ---------- order facts ---------- *)
-Lemma le_refl a : a <=! a.
+Lemma ole_refl a : a <=! a.
 Proof. destruct (of_total K OFK a a); auto. Qed.
-Lemma ltb_false_le a b : oltb K a b = false -> b <=! a.
+Lemma oltb_false_le a b : oltb K a b = false -> b <=! a.
 Proof. rewrite (of_ltb K OFK). destruct (oleb K b a); simpl; auto; discriminate. Qed.
-Lemma ltb_true_le a b : oltb K a b = true -> a <=! b.
+Lemma oltb_true_le a b : oltb K a b = true -> a <=! b.
 Proof.
   rewrite (of_ltb K OFK). intros H. destruct (of_total K OFK a b) as [E|E]; auto.
   rewrite E in H. discriminate.
 Qed.
-Lemma leb_false_le a b : oleb K a b = false -> b <=! a.
+Lemma oleb_false_le a b : oleb K a b = false -> b <=! a.
 Proof. intros H. destruct (of_total K OFK a b) as [E|E]; auto. congruence. Qed.
 Lemma abs0 : oabs K 0 = 0.
 Proof. rewrite (of_abs K OFK). destruct (oltb K 0 0); ring. Qed.
@@ -64,9 +64,9 @@ Lemma argmaxf_max f n t : (t < n)%nat -> f t <=! f (argmaxf K f n).
 Proof.
   induction n as [|m IH]; intros H; [lia|]. cbn [argmaxf].
   destruct (oltb K (f (argmaxf K f m)) (f m)) eqn:E.
-  - destruct (Nat.eq_dec t m) as [->|Hne]; [apply le_refl|].
-    eapply (of_trans K OFK); [apply IH; lia|]. now apply ltb_true_le.
-  - destruct (Nat.eq_dec t m) as [->|Hne]; [now apply ltb_false_le|]. apply IH; lia.
+  - destruct (Nat.eq_dec t m) as [->|Hne]; [apply ole_refl|].
+    eapply (of_trans K OFK); [apply IH; lia|]. now apply oltb_true_le.
+  - destruct (Nat.eq_dec t m) as [->|Hne]; [now apply oltb_false_le|]. apply IH; lia.
 Qed.
 
 Lemma pivot_bounds (B : mat T) : (0 < mr B)%nat -> (0 < mc B)%nat ->
